@@ -13,7 +13,8 @@ RULE = ("scenes from the seed: 3..5 (thorough 3..7) cells per axis, consistent f
         "state, random step index t of a run of ~8 steps. K: (a) the additive source terms jE, jH are probed from "
         "update_E/update_H on zero fields, then forward() vs model fwd and backward() vs model bwd (1e-9), which also "
         "checks that the injected increment does not depend on the fields; (b) full-tensor tier (model YeeAniso, ops "
-        "afwd/abwd): 4 forced + generated scenes whose update_E and/or update_H takes the 9-component branch (full SPD "
+        "afwd/abwd): 4 forced + 6 forced lossless full-tensor scenes with an electric / magnetic dipole that is on at t and "
+        "drives each field component in turn + generated scenes whose update_E and/or update_H takes the 9-component branch (full SPD "
         "or non-symmetric inv_eps / inv_mu, or a 9-component sigma next to a 1/3-component inverse tensor; the other "
         "field in any tier incl. scalar inv_mu), lossless or lossy (sigma of 1/3/9 components), uniform grid or "
         "stretched grid (spacing-weighted averages), zero/periodic/Bloch/PEC/PMC faces, 0..1 source when lossless: "
@@ -193,6 +194,14 @@ ANISO_FORCED = [
     # lossy: full sigma_H with a diagonal inv_mu and full inv_eps with diagonal sigma_E, stretched grid, periodic + wall mix
     dict(shape=[4, 3, 3], faces={"min_x": "periodic", "max_x": "periodic", "min_y": "pmc", "max_y": "none", "min_z": "pec", "max_z": "pec"},
          bloch=False, bloch_vector=[0.0, 0.0, 0.0], widths="stretch", eps_tier=9, mu_tier=3, sig_e_tier=3, sig_h_tier=9, sources=[]),
+] + [
+    # lossless full tensors with a source that is on at t and drives one given field component: the reverse sweep has to
+    # remove the injected term from every component separately (twelve near-identical lines in update_E/H_reverse)
+    dict(shape=[4, 3, 4], faces={k: "periodic" for k in Y.FACES}, bloch=False, bloch_vector=[0.0, 0.0, 0.0], widths=None,
+         eps_tier=9, mu_tier=9, sig_e_tier=None, sig_h_tier=None, t=3,
+         sources=[{"kind": kind, "axis": 0, "direction": "+", "profile": "cw", "switch": "default", "amp": 0.9 + 0.1 * pol, "pol": pol,
+                   "pos": [1 + pol % 2, 1, 2]}])
+    for kind in ("dipole_e", "dipole_m") for pol in (0, 1, 2)
 ]
 
 
@@ -428,7 +437,7 @@ def run(ctx):
     for i, c in enumerate(cases):
         one_case(ctx, c, sample=i in (0, 1))
     acases = [gen_aniso(ctx.rng, ctx.thorough, f) for f in ANISO_FORCED]
-    while len(acases) < ctx.scale(6, 40):
+    while len(acases) < ctx.scale(13, 46):
         acases.append(gen_aniso(ctx.rng, ctx.thorough))
     for i, c in enumerate(acases):
         aniso_case(ctx, c, sample=i == 2)
@@ -469,6 +478,14 @@ def search(ctx, hints):
         if d:
             ctx.violation(c, d)
             return
+    for f in ANISO_FORCED:
+        if f["sources"]:
+            ctx.impl_property_evals += 1
+            c = gen_aniso(rng, False, f)
+            d = aniso_fails(c)
+            if d:
+                ctx.violation(c, d)
+                return
     for i in range(ctx.scale(6, 40)):
         c = gen_aniso(rng, False, dict(sources=[], sig_e_tier=None, sig_h_tier=None))
         if c["eps_tier"] != 9 and c["mu_tier"] != 9:
